@@ -228,9 +228,12 @@ def main(argv):
         extra = [a for a in axioms if a not in ALLOWED_AXIOMS]
         if extra:
             proof_problems.append("theorems depend on axioms: " + ", ".join(extra))
-        if closed < spec.get("min_closed", 1):
-            proof_problems.append("Print Assumptions reported %d closed theorems, expected >= %d"
-                                  % (closed, spec.get("min_closed", 1)))
+        src = re.sub(r"\(\*.*?\*\)", "", open(os.path.join(COQ, propfile)).read(), flags=re.S)
+        n_pa = len(re.findall(r"^\s*Print\s+Assumptions\b", src, flags=re.M))
+        n_thm = len(re.findall(r"^\s*(?:Theorem|Corollary)\s", src, flags=re.M))
+        if closed < max(n_pa, spec.get("min_closed", 1)) or n_pa < n_thm:
+            proof_problems.append("Print Assumptions: %d of %d commands report a closed theorem (%d theorems in the file)"
+                                  % (closed, n_pa, n_thm))
     coqchk_summary = None
     if tier == "thorough" and files and not proof_problems:
         # independent re-check of the compiled property module and everything it depends on
